@@ -60,7 +60,7 @@ struct Params
   int val2 = 0;          // second parameter (h)
   unsigned mask2 = 0;
   unsigned wmask[3] = {0, 0, 0}; // accept masks of WITH clauses
-  int se[3] = {0, 0, 0};         // side-effect behaviour: 0 log, 1 log+throw, 2 log+nested call
+  int se[3] = {0, 0, 0};         // side-effect behaviour: 0 log, 1 log+throw, 2 log+nested call, 3 log+nested call v(arg-1) if arg>0
   int nest_obj = -1;     // nested call target (object id), function 'v'
   int nest_arg = 0;
   unsigned long lo = 1, hi = 1;  // RT_TIMES
@@ -98,6 +98,7 @@ namespace H
     emit("C %d S %d %d", p.id, idx, arg);
     if (p.se[idx] == 1) throw SeThrow{p.id, idx};
     if (p.se[idx] == 2) nested(p.nest_obj, p.nest_arg);
+    if (p.se[idx] == 3 && arg > 0) nested(p.nest_obj, arg - 1);   // conditional recursion: terminates because the argument decreases
   }
   inline void se(Params const& p, int idx, std::string const& arg) { se(p, idx, sidx(arg)); }
   inline int ret(Params const& p, int arg)
